@@ -14,6 +14,10 @@ import (
 // binary for a property violation: violations travel in the result file, and the
 // orchestrator decides the exit code.
 func TestWorker(t *testing.T) {
+	if p := os.Getenv("VERIF_C06_CHILD"); p != "" {
+		c06Child(p)
+		return
+	}
 	id := os.Getenv("VERIF_CHECK")
 	if id == "" {
 		t.Skip("VERIF_CHECK not set")
